@@ -456,6 +456,11 @@ class Intervals:
             a, b = self.iv_operand(st, args[0]), self.iv_operand(st, args[1])
             st[key_i] = Iv(max(a.lo, b.lo), max(a.hi, b.hi))
             return
+        if names.call_is(t, "Ord::clamp", "u8::clamp", "u16::clamp", "u32::clamp", "usize::clamp") and len(args) == 3:
+            # clamp(v, lo, hi) = min(max(v, lo), hi)  (it panics when lo > hi: no value then)
+            v, a, b = (self.iv_operand(st, x) for x in args)
+            st[key_i] = Iv(min(max(v.lo, a.lo), b.lo), min(max(v.hi, a.hi), b.hi))
+            return
         if names.call_is(t, "usize::saturating_sub", "u32::saturating_sub", "u16::saturating_sub", "u8::saturating_sub") and len(args) == 2:
             a, b = self.iv_operand(st, args[0]), self.iv_operand(st, args[1])
             st[key_i] = Iv(max(a.lo - b.hi, 0) if b.hi != INF else 0, max(a.hi - b.lo, 0) if a.hi != INF else INF)
